@@ -48,7 +48,14 @@ def main():
     try:
         demo_name = "seed_demo_" + re.sub(r"[^a-z0-9_]", "_", name.lower())
         shutil.copy(demo, os.path.join(wt, "tests", demo_name + ".rs"))
-        tgt = {"CARGO_TARGET_DIR": "/tmp/sv-target"}   # shared by all confirmations (incremental)
+        # a PRIVATE target dir per confirmation: cargo's artifact hash of the root package does not
+        # include its path, so two worktrees building concurrently into one target dir overwrite
+        # each other's libsuccinctly rlib and link tests against the wrong patch.  Seeded from a
+        # warm template (external crates prebuilt) to keep the rebuild short.
+        tdir = "/tmp/sv-target-" + name
+        if not os.path.exists(tdir) and os.path.exists("/tmp/sv-template"):
+            run(["cp", "-a", "--reflink=auto", "/tmp/sv-template", tdir])
+        tgt = {"CARGO_TARGET_DIR": tdir}
         feats = []
         m = json.load(open(meta))
         if m.get("demo_features"):
@@ -65,7 +72,7 @@ def main():
             print("REJECT: patch does not apply\n" + out)
             return 1
         rc, out = run(["cargo", "test", "--offline", "-j", "8", "--test", demo_name] + feats, cwd=wt, env=tgt)
-        compiled = "error: could not compile" not in out and "error[E" not in out
+        compiled = ("error: could not compile" not in out and "error[E" not in out) or "test result: FAILED" in out
         result["demo_with_patch"] = "fail" if (rc != 0 and compiled) else ("COMPILE-ERROR" if not compiled else "PASS")
         if rc == 0 or not compiled:
             print(out[-3000:])
@@ -128,6 +135,7 @@ def main():
         return 0
     finally:
         run(["git", "-C", "/repo", "worktree", "remove", "--force", wt])
+        shutil.rmtree("/tmp/sv-target-" + name, ignore_errors=True)
         h = hashlib.sha1(wt.encode()).hexdigest()[:10]
         shutil.rmtree("/tmp/verif-alt-build-" + h, ignore_errors=True)
 
